@@ -416,6 +416,19 @@ m('c03_flip_keeps_entry', ['C03'], 'jesse/models/Position.py',
                         old_entry = self.entry_price
                         self._mutating_close(price)
                         self._mutating_open(diff_qty, (price + old_entry) / 2 if abs(diff_qty) < 0.5 else price)""")
+m('c03_mark_price_not_updated_when_closing_at_high', ['C03'], 'jesse/modes/backtest_mode.py',
+  """            p = selectors.get_position(exchange, symbol)
+            if p:
+                p.current_price = real_candle[2]
+            break
+
+    _check_for_liquidations(real_candle, exchange, symbol)""", """            p = selectors.get_position(exchange, symbol)
+            if p and (not (real_candle[2] > real_candle[1] and real_candle[3] == real_candle[2]) or p.current_price is None):
+                p.current_price = real_candle[2]
+            break
+
+    _check_for_liquidations(real_candle, exchange, symbol)""",
+  note='the mark price is not refreshed by a rising minute that closes at its high: unrealised PnL and margin are computed from a stale price (a flat minute would be equivalent: its close is the previous close)')
 m('c03_reduce_only_increase_allowed_when_small', ['C03'], 'jesse/models/Position.py',
   """                if order.reduce_only:
                     logger.info('Did not increase position because order is a reduce_only order')""",
